@@ -71,6 +71,16 @@ class Run:
     def add_tlc(self, res):
         self.cov['states'] += res.distinct
         self.cov['transitions'] += res.generated
+        if getattr(res, 'coverage', None):
+            # VERIF_COVERAGE=1: action name -> [distinct states, states] per TLC run; an action that was never taken is listed
+            acts = self.notes.setdefault('tlc_action_coverage', {})
+            mod = getattr(res, 'module', '?')
+            for a, (d, t) in res.coverage.items():
+                cur = acts.setdefault(mod, {}).setdefault(a, [0, 0])
+                cur[0] += d
+                cur[1] += t
+            never = sorted('%s!%s' % (m, a) for m, aa in acts.items() for a, c in aa.items() if c[1] == 0)
+            self.notes['tlc_actions_never_taken'] = never
 
     def sample(self, s, limit=6):
         if len(self.cov['samples']) < limit:
